@@ -51,8 +51,11 @@ Main == <<SInfer("count", Num(0)), SInfer("last", S(<<45>>)), Pr(<<S(<<109>>), C
 Events == << [ev |-> "key", args |-> <<VStr(<<97>>)>>], [ev |-> "key", args |-> <<VStr(<<228, 8364>>)>>],
              [ev |-> "down", args |-> <<I(1), Fin(5, 1)>>], [ev |-> "up", args |-> <<I(3), I(4)>>],
              [ev |-> "animate", args |-> <<I(16)>>], [ev |-> "input", args |-> <<VStr(<<115, 49>>), VStr(<<118>>)>>],
-             [ev |-> "move", args |-> <<I(7), I(8)>>] >>
-NE == 7
+             [ev |-> "move", args |-> <<I(7), I(8)>>],
+             \* payloads that look like quoted literals are strings like any other
+             [ev |-> "key", args |-> <<VStr(<<34, 52, 50, 34>>)>>], [ev |-> "input", args |-> <<VStr(<<96, 105, 96>>), VStr(<<39, 99, 39>>)>>],
+             [ev |-> "input", args |-> <<VStr(<<115, 49>>), VStr(<<34, 118, 92, 110, 34>>)>>] >>
+NE == 10
 
 RECURSIVE EvSeq(_, _)
 EvSeq(code, len) == IF len = 0 THEN <<>> ELSE <<Events[(code % NE) + 1]>> \o EvSeq(code \div NE, len - 1)
